@@ -178,3 +178,134 @@ pub fn rsync_override(source: &str, destination: &std::path::Path) -> Option<i32
     let handler = RSYNC.read().unwrap_or_else(|e| e.into_inner()).clone();
     handler.map(|handler| handler(source, destination))
 }
+
+
+//------------ Forced run outcomes -------------------------------------------
+
+/// The outcome forced upon a validation run.
+#[derive(Clone, Copy, Debug, Eq, PartialEq)]
+pub enum Outcome {
+    /// Run normally.
+    Ok,
+    /// Fail with a retryable error before doing anything.
+    Retry,
+    /// Fail with a fatal error before doing anything.
+    Fatal,
+}
+
+static OUTCOMES: Mutex<Option<Vec<Outcome>>> = Mutex::new(None);
+static RUN_COUNTER: AtomicUsize = AtomicUsize::new(0);
+
+/// Sets the outcomes of the following validation runs (hook H5).
+///
+/// The n-th run gets the n-th outcome; once the list is used up, the last
+/// outcome is repeated.
+pub fn set_outcomes(outcomes: Option<Vec<Outcome>>) {
+    *OUTCOMES.lock().unwrap_or_else(|e| e.into_inner()) = outcomes;
+    RUN_COUNTER.store(0, Ordering::SeqCst);
+}
+
+/// Returns the number of validation runs started since `set_outcomes`.
+pub fn run_count() -> usize {
+    RUN_COUNTER.load(Ordering::SeqCst)
+}
+
+/// Called at the start of each validation run. Returns the forced outcome.
+///
+/// Outcomes can also be given through the environment variable
+/// `VERIF_OUTCOMES` as a comma-separated list of `ok`, `retry`, `fatal`; the
+/// number of each run is then appended to the file named by `VERIF_RUNLOG`
+/// and the process exits with status 97 after 50 runs (so that an endless
+/// retry loop becomes observable).
+pub fn next_outcome() -> Outcome {
+    let count = RUN_COUNTER.fetch_add(1, Ordering::SeqCst);
+    let mut outcomes = OUTCOMES.lock().unwrap_or_else(|e| e.into_inner());
+    if outcomes.is_none() {
+        if let Ok(var) = std::env::var("VERIF_OUTCOMES") {
+            *outcomes = Some(var.split(',').map(|item| {
+                match item.trim() {
+                    "retry" => Outcome::Retry,
+                    "fatal" => Outcome::Fatal,
+                    _ => Outcome::Ok,
+                }
+            }).collect());
+        }
+    }
+    let res = match outcomes.as_ref() {
+        Some(list) if !list.is_empty() => {
+            *list.get(count).unwrap_or(list.last().unwrap())
+        }
+        _ => return Outcome::Ok
+    };
+    drop(outcomes);
+    if let Ok(path) = std::env::var("VERIF_RUNLOG") {
+        if let Ok(mut file) = std::fs::OpenOptions::new()
+            .create(true).append(true).open(path)
+        {
+            let _ = writeln!(file, "{} {:?}", count + 1, res);
+        }
+        if count + 1 >= 50 {
+            std::process::exit(97)
+        }
+    }
+    res
+}
+
+
+//------------ RTR connection setup failures ---------------------------------
+
+static RTR_FAIL: Mutex<Option<HashSet<usize>>> = Mutex::new(None);
+static RTR_CONN: AtomicUsize = AtomicUsize::new(0);
+
+/// Makes the setup of the given accepted RTR connections fail (hook H6).
+///
+/// Connections are numbered from 1 in the order they are accepted.
+pub fn set_rtr_setup_failures(conns: Option<HashSet<usize>>) {
+    *RTR_FAIL.lock().unwrap_or_else(|e| e.into_inner()) = conns;
+    RTR_CONN.store(0, Ordering::SeqCst);
+}
+
+/// Called for each accepted RTR connection; returns whether setup must fail.
+pub fn rtr_setup_fails() -> bool {
+    let fail = RTR_FAIL.lock().unwrap_or_else(|e| e.into_inner());
+    match fail.as_ref() {
+        Some(set) => {
+            let conn = RTR_CONN.fetch_add(1, Ordering::SeqCst) + 1;
+            set.contains(&conn)
+        }
+        None => false
+    }
+}
+
+
+//------------ HTTP client interception --------------------------------------
+
+/// The reply of the intercepted HTTP client.
+#[derive(Clone, Debug)]
+pub struct HttpReply {
+    pub status: u16,
+    pub headers: Vec<(String, String)>,
+    pub body: Vec<u8>,
+}
+
+/// An HTTP request handler: URI, If-None-Match value, If-Modified-Since
+/// (Unix timestamp).
+pub type HttpHandler = dyn Fn(
+    &str, Option<&[u8]>, Option<i64>
+) -> HttpReply + Send + Sync;
+
+static HTTP: RwLock<Option<Arc<HttpHandler>>> = RwLock::new(None);
+
+/// Installs or removes the handler answering all RRDP/TA HTTP requests
+/// in-process (hook H1).
+pub fn set_http_override(handler: Option<Arc<HttpHandler>>) {
+    *HTTP.write().unwrap_or_else(|e| e.into_inner()) = handler;
+}
+
+/// Answers an HTTP request in-process if a handler is installed.
+pub fn http_override(
+    uri: &str, etag: Option<&[u8]>, if_modified_since: Option<i64>
+) -> Option<HttpReply> {
+    let handler = HTTP.read().unwrap_or_else(|e| e.into_inner()).clone();
+    handler.map(|handler| handler(uri, etag, if_modified_since))
+}
